@@ -421,4 +421,54 @@ func legRobust(c *Ctx) {
 		}
 	}
 	c.Gate("balancing stress ran", balCalls > 2000)
+
+	// every truncation of every syntactic construct, at the end of a pattern, under every dialect: the pre-scan
+	// (countCaptures) and the parser look ahead by fixed amounts and must find the end of the pattern first
+	constructs := []string{`(?P<name>a)`, `(?<n-m>a)`, `(?'n'a)`, `(?P=name)`, `(?(1)a|b)`, `(?(name)a|b)`, `(?(?=a)b|c)`, `\k<name>`, `\k'n'`, `\k{n}`,
+		`\p{Lu}`, `\P{IsGreek}`, `[[:alpha:]]`, `[a-z-[aeiou]]`, `[^\]a-]`, `(?#comment)`, `\x{10FFFF}`, `\x41`, `\u0041`, `\u{1F600}`, `\cA`, `a{1,3}?`, `a{2,}+`,
+		`(?imnsx-imnsx:a)`, `(?i)`, `(?>a)`, `(?<=a)`, `(?<!a)`, `(?=a)`, `(?!a)`, `\123`, `\0`, `\Qa.b\E`, `\G\A\z\Z\b\B`, `(?<1>a)\1`, `#c\n`, `\ `, `a|`, `(|)`}
+	bases := []string{"", "a", "(a)", "(?<name>x)(?<n>y)(?<m>z)", "\xff"}
+	dialects := []regexp2.RegexOptions{0, regexp2.RE2, regexp2.ECMAScript, regexp2.ECMAScript | regexp2.Unicode, regexp2.RE2 | regexp2.IgnoreCase,
+		regexp2.ExplicitCapture, regexp2.IgnorePatternWhitespace, regexp2.RightToLeft, regexp2.IgnorePatternWhitespace | regexp2.RE2}
+	truncs := 0
+	for _, cons := range constructs {
+		cr := []rune(cons)
+		var bad []string
+		for k := 0; k <= len(cr); k++ {
+			for _, b := range bases {
+				pat := b + string(cr[:k])
+				for _, ro := range dialects {
+					for _, mco := range []bool{false, true} {
+						truncs++
+						opts := []regexp2.CompileOption{ro}
+						if mco {
+							opts = append(opts, regexp2.OptionMaintainCaptureOrder())
+						}
+						guarded(fmt.Sprintf("Compile(%+q, %#x, mco=%v)", pat, int(ro), mco), &bad, false, func() error {
+							re, err := regexp2.Compile(pat, opts...)
+							if err != nil {
+								var se *syntax.Error
+								if !errors.As(err, &se) && !strings.Contains(err.Error(), "error parsing regexp") {
+									return fmt.Errorf("Compile returned a non-parse error: %w", err)
+								}
+								return nil
+							}
+							re.MatchTimeout = 100 * time.Millisecond
+							_, err = re.MatchString("axyz a1\n")
+							return err
+						})
+					}
+				}
+			}
+		}
+		cs := &Case{Desc: fmt.Sprintf("every truncation of %+q after %d bases under %d dialects", cons, len(bases), len(dialects)), Nontrivial: true, Key: "trunc" + cons, Class: "truncation"}
+		if len(bad) > 0 {
+			if len(bad) > 4 {
+				bad = bad[:4]
+			}
+			cs.Direct = strings.Join(bad, " | ")
+		}
+		c.Add(cs)
+	}
+	c.Gate("truncation sweep ran", truncs > 10000)
 }
